@@ -187,6 +187,13 @@ def r1_1(ctx, rc):
     # it (``exec_and_capture(name, args, created_files)``): callee ->
     # (name param, args param, overlay param)
     execlike = {execq: tuple(E0.params[:3])}
+    record_mode = len(E0.params) == 2 and {'name', 'args'} <= {
+        n.attr for n in ast.walk(E0.node) if isinstance(n, ast.Attribute)
+        and isinstance(n.value, ast.Name) and n.value.id == E0.params[0]}
+    if record_mode:
+        # exec(record, overlay): the executor reads the record's own name
+        # and args itself
+        execlike = {execq: (E0.params[0], None, E0.params[1])}
     for g in prog.funcs.values():
         if g.cls != ex or g.qualname == execq:
             continue
@@ -213,16 +220,35 @@ def r1_1(ctx, rc):
                 cn = ctx.H.node_of(f, call)[0]
                 b1 = prog.bind_args(call, g)
                 pn, pa, po = execlike[g.qualname]
-                raw = [b1.get(pn), b1.get(pa),
+                raw = [b1.get(pn), b1.get(pa) if pa else None,
                        b1.get(po) if po else None]
                 a = [ctx.H.subst_callers(x, f, cn)
                      if isinstance(x, ast.AST) else None for x in raw[:2]]
                 key = 'exec call in ' + f.qualname
-                ok = all(x is not None for x in a) and isinstance(
-                    a[0], ast.Attribute) and \
-                    a[0].attr == 'name' and isinstance(
-                        a[1], ast.Attribute) and a[1].attr == 'args' and \
-                    ast.dump(a[0].value) == ast.dump(a[1].value)
+                if pa is None:
+                    # the record itself is handed over
+                    ts = set(prog.type_of(raw[0], f)) if isinstance(
+                        raw[0], ast.AST) else set()
+                    if isinstance(raw[0], ast.Name):
+                        ts |= set(prog.param_types.get(
+                            (f.qualname, raw[0].id), ()))
+                    ok = bool(ts) and ts <= set(R.record_classes)
+                    if not ts and isinstance(raw[0], ast.Name):
+                        # untyped parameter (an element of .suboperations):
+                        # used as a simple-operation record in f
+                        used = {n.attr for n in ast.walk(f.node)
+                                if isinstance(n, ast.Attribute) and
+                                isinstance(n.value, ast.Name) and
+                                n.value.id == raw[0].id}
+                        ok = bool(used) and used <= set(
+                            R.record_fields.get('SimpleOperation', ()))
+                else:
+                    ok = all(x is not None for x in a) and isinstance(
+                        a[0], ast.Attribute) and \
+                        a[0].attr == 'name' and isinstance(
+                            a[1], ast.Attribute) and \
+                        a[1].attr == 'args' and \
+                        ast.dump(a[0].value) == ast.dump(a[1].value)
                 ov = raw[2]
                 if ov is None and po is not None:
                     ov = g.defaults.get(po)     # parameter left at default
@@ -665,9 +691,63 @@ def r1_10(ctx, rc):
     from . import c18
     r5_8(ctx, rc)
     r11_1(ctx, rc)
+    # ... and the directory reservations: release is the inverse of reserve
+    from .c04 import r4_8
+    r4_8(ctx, rc)
     # the comparisons of R1.4 are JSON equality: its structural rules
     c18.r18_3(ctx, rc)
     c18.r18_5(ctx, rc)
+
+
+def r1_11(ctx, rc):
+    from .c08 import failed_record_is_marked
+    failed_record_is_marked(ctx, rc)
+    returned_value_is_the_records(ctx, rc)
+    # the operation versions compared by the simple decider are the
+    # software's table (a library upgrade invalidates recorded queries)
+    from .c06 import r6_7
+    r6_7(ctx, rc)
+
+
+def returned_value_is_the_records(ctx, rc):
+    """What build_file / subbuild hand back to the caller is the record's
+    ``return_value`` (deep-copied by the API wrapper) - the field that is
+    persisted and served again; any other field makes the first build
+    answer differently from every later one."""
+    R = ctx.R
+    prog = ctx.prog
+    n = 0
+    for fname in ('_build_file', '_subbuild'):
+        F = R.builder_f(fname)
+        cfg = ctx.E.cfgs.get(F)
+        n0 = n
+        for rn in cfg.nodes:
+            if rn.kind != 'return' or rn.ast is None or \
+                    rn.ast.value is None:
+                continue
+            n += 1
+            v = ctx.H.subst(rn.ast.value, F, rn)
+            key = 'value returned by %s' % F.qualname
+            fields = {x.attr for x in ast.walk(v)
+                      if isinstance(x, ast.Attribute) and
+                      x.attr in R.record_fields.get(
+                          'BuildFileOperation', ()) or
+                      isinstance(x, ast.Attribute) and x.attr in
+                      R.record_fields.get('SubbuildOperation', ())}
+            if fields == {'return_value'} or (
+                    'return_value' in fields and fields <= {
+                        'return_value', '_operation'}):
+                rc.ok({'returns': ast.unparse(v)[:50]}, key=key)
+            else:
+                rc.violation(
+                    'api-return | ' + F.qualname,
+                    '%s returns %s, not the record\'s return_value: the '
+                    'caller gets something else than what is persisted and '
+                    'served by later builds' % (F.qualname,
+                                                ast.unparse(v)[:60]),
+                    prog.loc(F, rn.ast), key=key)
+        if n == n0:
+            raise AnalysisError('%s returns no value' % F.qualname)
 
 
 RULES = [
@@ -681,4 +761,6 @@ RULES = [
     ('R1.8', 'error classes of queries come from the virtual view', r1_8),
     ('R1.9', 'a reused subtree is applied completely', r1_9),
     ('R1.10', 'overlay bookkeeping inverts; records are not aliased', r1_10),
+    ('R1.11', 'a failed call is recorded as failed; the value handed back '
+     'is the recorded one', r1_11),
 ]
